@@ -141,7 +141,8 @@ def run(rep, model):
         rel, line = _where(model, name.replace('expr:', ''))
         cons = '%s:%s' % (kind, name)
         try:
-            r = evaluate(model, Hcls, b)
+            from ..core import with_budget
+            r = with_budget(lambda: evaluate(model, Hcls, b))
             if r is None:
                 n -= 1
                 continue
